@@ -19,7 +19,7 @@ def main():
     except ValueError:
         seed = 20260925
     mod = importlib.import_module('props.' + a.pid.lower())
-    chk = vlib.Check(a.pid, tier, seed)
+    chk = vlib.Check(a.pid, tier, seed, keep_replays=bool(a.replay))
     try:
         if a.replay:
             rc = mod.replay(chk, json.load(open(a.replay)))
